@@ -6,7 +6,7 @@ import os
 import re
 import time
 
-from .smt import solve, parse_model, Decls
+from .smt import solve, solve_excluding, parse_model, Decls
 from .state import Obligation
 
 _TOKEN = re.compile(r"[^\s()]+")
@@ -169,3 +169,42 @@ def discharge(func_results, budget=60, jobs=None, covers=True, model_terms=None,
             for idx, r in pool.imap_unordered(_work_cover, cover_jobs, chunksize=4):
                 index[idx].result = r
     return time.time() - t0
+
+
+def _work_cross(job):
+    fi, oi = job
+    fr = _G["results"][fi]
+    ob = fr.obligations[oi]
+    text = smt_text(fr.decls, ob)
+    if "+layout" in str(ob.result.get("solver")):
+        rf = _refine_text(fi, set(_TOKEN.findall(text)))
+        text = text + "\n" + rf
+    return fi, oi, solve_excluding(text, ob.result.get("solver"), _G["xbudget"])
+
+
+def cross_check(func_results, budget=30, jobs=None):
+    """thorough tier: every obligation answered `unsat` is put to the other solvers of the portfolio as well.
+    -> dict(confirmed, unconfirmed, disagreements=[obligation ids])"""
+    jobs = jobs or min(16, os.cpu_count() or 4)
+    _G["results"] = func_results
+    _G["xbudget"] = budget
+    todo = []
+    for fi, fr in enumerate(func_results):
+        for oi, ob in enumerate(fr.obligations):
+            if ob.result and ob.result.get("result") == "unsat" and ob.result.get("solver") not in (None, "trivial"):
+                todo.append((fi, oi))
+    out = dict(asked=len(todo), confirmed=0, unconfirmed=0, disagreements=[], by_solver={})
+    if not todo:
+        return out
+    with mp.Pool(jobs) as pool:
+        for fi, oi, r in pool.imap_unordered(_work_cross, todo, chunksize=4):
+            ob = func_results[fi].obligations[oi]
+            ob.result["second_opinion"] = r
+            if r["result"] == "unsat":
+                out["confirmed"] += 1
+                out["by_solver"][r["solver"]] = out["by_solver"].get(r["solver"], 0) + 1
+            elif r["result"] == "sat":
+                out["disagreements"].append(ob.coarse_id)
+            else:
+                out["unconfirmed"] += 1
+    return out
